@@ -307,3 +307,23 @@ func H_Hub_C11_Closed() {
 	zzvrt.Assert(n == 1, "C11.disconnect-notification-count")
 	zzvrt.Cover("hub.end")
 }
+
+// H_Hub_C11_CloseVsRegister: the end of an old double connection is reported while the newer connection of the same SKI
+// gets registered (two goroutines): the newer connection's registry entry must survive every interleaving.
+func H_Hub_C11_CloseVsRegister() {
+	e := newHubEnv()
+	h := e.h
+	e.addService(skiA, "A")
+	old := e.newConn(skiA, model.SmeStateComplete, 1)
+	newer := e.newConn(skiA, model.SmeStateComplete, 2)
+	h.connections[skiA] = old
+	completed := zzvrt.Bool("completed")
+	done := 0
+	go func() { h.HandleConnectionClosed(old, completed); done++ }()
+	go func() { h.registerConnection(newer); done++ }()
+	zzvrt.WaitQuiescent()
+	zzvrt.Assert(done == 2, "C11.blocked")
+	got, ok := h.connections[skiA]
+	zzvrt.Assert(ok && got == api.ShipConnectionInterface(newer), "C11.newer-connection-dropped-by-racing-close")
+	zzvrt.Cover("hub.end")
+}
